@@ -14,6 +14,8 @@ import EdzedProofs.InitOrder
 import EdzedProofs.InitAsyncOrder
 import EdzedProofs.InitClosure
 import EdzedProofs.InitTie
+import EdzedProofs.InitSbTie
+import EdzedProofs.InitSbEarly
 
 namespace Edzed.Init
 
@@ -235,6 +237,124 @@ theorem translated_initasync_regular_is_model (c : Cfg) (rec : Call → St → S
     regularBody c rec b a =
       applyActs rec b (Edzed.Gen.TrInit.initAsyncRegular (a.out b) (initdefVal (c.blk b))) false a :=
   regularBody_tie c rec b a hq hv
+
+/-! #### `Circuit.init_sblock`, `_init_sblocks_sync_1`, `_init_sblocks_sync_2` (tools/py2lean_initsb.py) -/
+
+open Edzed.Gen.TrD Edzed.Gen.TrI
+
+/-- the program generated from the current source of `Circuit.init_sblock` IS the reference program
+    (steps, conditions, order of the routines, the `try` around them): definitionally -/
+theorem translated_init_sblock_is_reference {σ ε β : Type} :
+    @init_sblock σ ε β = @isbRef σ ε β := rfl
+
+theorem translated_init_sblocks_sync_1_is_reference {σ ε β : Type} (P : InitPrims σ ε β) :
+    init_sblocks_sync_1 P = sync1Ref P := by
+  have h1 : ∀ l, init_sblocks_sync_1_for1 P l = initLoop P l := by
+    intro l; induction l with
+    | nil => rfl
+    | cons a r ih => simp only [init_sblocks_sync_1_for1, initLoop, ih]
+  unfold init_sblocks_sync_1 sync1Ref
+  rw [h1]
+
+theorem translated_init_sblocks_sync_2_is_reference {σ ε β : Type} (P : InitPrims σ ε β) (fuel : Nat) :
+    init_sblocks_sync_2 P fuel = sync2Ref P fuel := by
+  have h1 : ∀ l, init_sblocks_sync_2_for1 P l = initLoop P l := by
+    intro l; induction l with
+    | nil => rfl
+    | cons a r ih => simp only [init_sblocks_sync_2_for1, initLoop, ih]
+  have h2 : ∀ l, init_sblocks_sync_2_for2 P l = checkLoop P l := by
+    intro l; induction l with
+    | nil => rfl
+    | cons a r ih => simp only [init_sblocks_sync_2_for2, checkLoop, ih]
+  have h3 : ∀ l, init_sblocks_sync_2_for3 P l = saveLoop P l := by
+    intro l; induction l with
+    | nil => rfl
+    | cons a r ih => simp only [init_sblocks_sync_2_for3, saveLoop, ih]
+  have h4 : ∀ n, init_sblocks_sync_2_loop4 P n = drainLoop P n := by
+    intro n; induction n with
+    | zero => rfl
+    | succ k ih => simp only [init_sblocks_sync_2_loop4, drainLoop, ih]
+  unfold init_sblocks_sync_2 sync2Ref
+  simp only [h1, h2, h3, h4]
+
+/-- the translated `init_sblock`, run with the routines of block `b` as operations of the model, IS the model's
+    `initBody` -- in every run in which no routine (and nothing it triggers) calls `Circuit.abort()` -/
+theorem translated_init_sblock_is_model (c : Cfg) (rec : Call → St → St) (b : Nat) (full : Bool) (s : St)
+    (hok : s.ok = true) (hna : (initBody c rec b full s).aborted = false) :
+    runM (init_sblock (isbPrims c rec) b full) s = initBody c rec b full s := by
+  rw [translated_init_sblock_is_reference]
+  exact isbRef_model c rec b full s hok hna
+
+/-- ... hence it is one step of the model's call tree -/
+theorem translated_init_sblock_is_exec (c : Cfg) (fuel : Nat) (b : Nat) (full : Bool) (s : St)
+    (hok : s.ok = true) (hna : (exec c (fuel + 1) (.initS b full) s).aborted = false) :
+    runM (init_sblock (isbPrims c (exec c fuel)) b full) s = exec c (fuel + 1) (.initS b full) s := by
+  have e : exec c (fuel + 1) (.initS b full) s = initBody c (exec c fuel) b full s := by
+    simp [exec, body, hok]
+  rw [e] at hna ⊢
+  exact translated_init_sblock_is_model c (exec c fuel) b full s hok hna
+
+/-- The abort case.  After a routine has called `Circuit.abort()` (through an event handler or a monitored
+    task) the Python code goes on -- the remaining routines of the block still run --, the model stops at the
+    abort.  Not an equality: both end in a state whose error register is set, i.e. the start-up fails
+    (`failed_init_raises`) and nothing the code still did is observed. -/
+theorem translated_init_sblock_after_abort_partial (c : Cfg) (rec : Call → St → St)
+    (hst : ∀ call s, s.aborted = true → (rec call s).aborted = true) (b : Nat) (full : Bool) (s : St)
+    (hok : s.ok = true) (hab : (initBody c rec b full s).aborted = true) :
+    (runM (init_sblock (isbPrims c rec) b full) s).aborted = true := by
+  rw [translated_init_sblock_is_reference]
+  exact isbRef_abort c rec hst b full s hok hab
+
+/-- the hypothesis of the abort case holds for the model's call tree -/
+theorem translated_init_sblock_exec_keeps_abort (c : Cfg) (fuel : Nat) :
+    ∀ call s, s.aborted = true → (exec c fuel call s).aborted = true :=
+  exec_abortSticky c fuel
+
+/-- `_init_sblocks_sync_1` translated IS the model's synchronous phase (blocks in creation order,
+    `init_sblock(blk, full=False)` = `.initS b false`; it ends at the first exception) -/
+theorem translated_init_sblocks_sync_1_is_model (c : Cfg) (s : St) (hs : s.exc = Option.none) :
+    runM (init_sblocks_sync_1 (isbPrims c (exec c c.fuel))) s = syncPhase c s := by
+  rw [translated_init_sblocks_sync_1_is_reference]
+  exact sync1Ref_model c s hs
+
+/-- `_init_sblocks_sync_2` translated IS the second synchronous phase followed by the all-initialised test --
+    when nothing has aborted (after an abort the code still runs the test loop, the model has stopped).
+    Outside the model, instantiated as absent: the storage, `save_persistent_state`, the queue of changed blocks -/
+theorem translated_init_sblocks_sync_2_is_model (c : Cfg) (fuel : Nat) (s : St) (hs : s.exc = Option.none)
+    (hna : (syncPhase c s).aborted = false) :
+    runM (init_sblocks_sync_2 (isbPrims c (exec c c.fuel)) (fuel + 1)) s = check c (syncPhase c s) := by
+  rw [translated_init_sblocks_sync_2_is_reference]
+  exact sync2Ref_model c fuel s hs hna
+
+/-- the early-initialisation call site: the part `if 0 <= init_steps_completed < 2: with _enable_event:
+    init_sblock(self, full=True)` of the translated `SBlock.event` (C11's reference program `initPart`), run with
+    the C05 primitives, is the early-initialisation step of the model's `eventBody` -/
+theorem translated_event_early_init_is_model (rec : Call → St → St) (d : Nat) (s : St)
+    (ha : s.active d = true) :
+    fin (Edzed.TrTie.initPart (earlyPrims rec d) s) =
+      if 0 ≤ s.steps d ∧ s.steps d < 2
+      then (rec (.initS d true) (s.setActive d false)).setActive d true
+      else s :=
+  initPart_is_eventBody_step rec d s ha
+
+/-- ... and that part IS in the program generated from the current source of `SBlock.event`: the translated
+    `event` is the reference program `eventRef`, whose body starts with `initPart` (the same obligation as C11's
+    `translated_event_is_reference`, repeated here because the guard `0 <= init_steps_completed < 2` and the call
+    `init_sblock(self, full=True)` belong to the start-up) -/
+theorem translated_event_early_init_site_is_reference {σ ε τ δ ν η ρ γ : Type} :
+    @Edzed.Gen.TrD.event σ ε τ δ ν η ρ γ = @Edzed.TrTie.eventRef σ ε τ δ ν η ρ γ := by
+  first
+  | rfl
+  | (funext P fuel etype data
+     unfold Edzed.Gen.TrD.event Edzed.TrTie.eventRef Edzed.TrTie.checkPart
+     cases P.isStr etype <;> cases P.etypeTruthy etype <;> cases P.isEventType etype <;> rfl)
+
+/-- the states of the hypotheses exist: a block with all three synchronous sources, initialised early -/
+example : ∃ c s, s.ok = true ∧ (initBody c (exec c 8) 0 true s).aborted = false ∧
+    runM (init_sblock (isbPrims c (exec c 8)) 0 true) s = initBody c (exec c 8) 0 true s :=
+  ⟨{ n := 1, blk := fun _ => { persist := .raises, regular := .sets (Val.int 3),
+                               initdef := some (Val.int 1, .direct) }, fuel := 9 },
+   init, rfl, by decide, translated_init_sblock_is_model _ _ _ _ _ rfl (by decide)⟩
 
 end TrTie
 
